@@ -699,9 +699,7 @@ func (in *inst) Fingerprint() string {
 		fmt.Fprintf(&sb, "|inhand=%d:%s|held=%t|sleep=%s", in.rflMac, rel(in.rflExp, now), in.rheld != nil, rel(in.rsleep, now))
 	}
 	fmt.Fprintf(&sb, "|hhold=%t|hheld=%d|scen=%v", in.hhold, len(in.hheld), ks)
-	if in.chk != nil {
-		fmt.Fprintf(&sb, "|nx=%t|rd=%t", in.chk.nexus, in.chk.radius)
-	}
+	// the scripted health flags are set anew by every tick before they are read: not part of the state
 	return sb.String()
 }
 
